@@ -57,6 +57,25 @@ func c11GenBytes(rnd *rand.Rand) []byte {
 		}
 		in = append(in, c11Alphabet[rnd.IntN(len(c11Alphabet))]...)
 		n = rnd.IntN(6)
+	case 3:
+		// long inputs (well beyond twice the limit): long runs of whitespace / collapsible
+		// characters before and between the visible ones, and a rune straddling bytes 128, 256, 512
+		target := []int{129, 250, 256, 257, 300, 511, 513, 700, 1500}[rnd.IntN(9)]
+		for len(in) < target {
+			switch rnd.IntN(6) {
+			case 0, 1:
+				k := 1 + rnd.IntN(200)
+				for j := 0; j < k; j++ {
+					in = append(in, []string{" ", "\t", "\u00a0", "\u2003", "\n"}[rnd.IntN(5)]...)
+				}
+			case 2:
+				in = append(in, c11Alphabet[rnd.IntN(len(c11Alphabet))]...)
+			default:
+				in = append(in, byte('a'+rnd.IntN(26)))
+			}
+		}
+		in = append(in, c11Alphabet[rnd.IntN(len(c11Alphabet))]...)
+		return in
 	case 2:
 		// all kinds of spaces only
 		n = rnd.IntN(140)
